@@ -21,6 +21,8 @@ open Verif.Props.C17
 #print axioms block_object_disjoint
 #print axioms js_mimetypes_ok
 #print axioms zero_units_ok
+#print axioms zero_angle_funcs_ok
+#print axioms angle_dimension_ok
 #print axioms svg_color_attrs_ok
 #print axioms hash_names_ok
 #print axioms html5_table_wf
